@@ -334,8 +334,21 @@ def _seed_kwargs(form, s):
         return {"rng": np.random.default_rng(s)}
     if form == "rng-list":
         return {"rng": [s, s + 1]}
-    if form == "seed-npint":
-        return {"seed": np.int64(s)}
+    # wider value domains of what Model accepts as seed / rng
+    if form == "seed-float":
+        return {"seed": s + 0.5}           # random.Random takes it, numpy's default_rng does not (TypeError fall-back)
+    if form == "seed-str":
+        return {"seed": f"mesa-{s}"}       # str seeds are hashed with sha512, not with the process hash seed
+    if form == "seed-big":
+        return {"seed": s + 2**70}
+    if form == "seed-bool":
+        return {"seed": bool(s % 2)}
+    if form == "rng-npint":
+        return {"rng": np.int64(s)}        # random.Random refuses a numpy scalar (TypeError fall-back)
+    if form == "rng-big":
+        return {"rng": s + 2**70}
+    if form == "rng-array":
+        return {"rng": np.array([s, s + 1])}   # array of ints (random.Random refuses it: fall-back)
     raise ValueError(form)
 
 
@@ -452,7 +465,26 @@ def build_script_model(spec, shared=None):
         def act(self):
             behave(self)
 
+        def __bool__(self):          # some agents are "false" objects: nothing in Mesa may test `if agent:`
+            return self.unique_id % 3 != 0
+
     class KB(KA):
+        pass
+
+    class KC(KB):                     # a subclass of a subclass, sized and empty
+        def __len__(self):
+            return 0
+
+        def __bool__(self):
+            return False
+
+    class Mixin:
+        tag = 7
+
+        def act(self):                # shadowed by KA.act: the mixin stands AFTER the framework base in the MRO
+            raise AssertionError("mixin method must not win")
+
+    class KM(KA, Mixin):
         pass
 
     class ScriptModel(mesa.Model):
@@ -513,6 +545,10 @@ def build_script_model(spec, shared=None):
                                      group=self.random.randrange(3))    # a list built outside the model
                 for a in s.shuffle():
                     self.place(a)
+            if n >= 3 and kind != "cont":
+                for cls_ in (KC, KM):
+                    for a in cls_.create_agents(self, 1, self.random.randrange(10), group=1):
+                        self.place(a)
 
         def step(self):
             self.agents.shuffle_do("act")
@@ -542,6 +578,33 @@ def build_script_model(spec, shared=None):
             model.agents.sort("energy").select(at_most=3).shuffle_do("act")
         elif k == "populate":
             model.populate(op[1])
+        elif k == "abandon_iter":
+            # iterators / generators started and dropped half-way, then the same collections are used again
+            its = [iter(model.agents), iter(model.agents.shuffle()), (a for a in model.agents if a.energy > 0)]
+            if cellspace:
+                its += [iter(model.grid.all_cells), model.grid.all_cells.agents, iter(model.grid.empties)]
+            for it in its:
+                next(it, None)
+            model.agents.shuffle_do("act")
+            model.agents.shuffle_do("act")      # a second activation at the same logical time
+        elif k == "bad_move":
+            # a rejected call, then the run continues: move into a full cell / onto an occupied position
+            try:
+                if cellspace and model.capacity is not None:
+                    full = [c for c in model.grid.all_cells if c.is_full]
+                    movers = [a for a in model.agents if a.cell is not None and (not full or a.cell is not full[0])]
+                    if full and movers:
+                        model.random.choice(movers).cell = full[0]
+                elif kind == "single":
+                    placed = [a for a in model.agents if a.pos is not None]
+                    if len(placed) >= 2:
+                        model.grid.move_agent(placed[0], placed[1].pos)
+                else:
+                    model.agents.select(at_most=-1).shuffle_do("act")
+                    model.random.choice([])
+            except Exception as e:  # noqa: BLE001
+                model.log.append(["rejected", type(e).__name__])
+            model.agents.shuffle_do("act")
         elif k == "relocate":
             # every agent, in random order, moves to a random empty cell (nearly full grids: many draws, both strategies)
             for a in model.agents.shuffle():
@@ -594,6 +657,11 @@ def build_script_model(spec, shared=None):
     return model, do_op
 
 
+def _unseeded_warned(wl):
+    """a UserWarning was issued (classified by category, never by message text; FutureWarning etc. are other categories)"""
+    return any(w.category is UserWarning for w in wl)
+
+
 def run_script_job(job, detail_step=None, share=False):
     """share=True: the measured model is built from the VERY SAME externally built objects (graph, layers, lists, parameter
     dict) that a prior model of the same kind (other seed) was given and ran on, in this process"""
@@ -635,7 +703,7 @@ def run_script_job(job, detail_step=None, share=False):
             if changed is None and _global_state() != g0:
                 changed = i + 1
         bad = [p for p, ok in _walk_generators(model) if not ok]
-        warned = sorted({str(w.message)[:60] for w in wl if "Random number generator not specified" in str(w.message)})
+        warned = sorted({f"{os.path.basename(w.filename)}:{w.lineno}" for w in wl if w.category is UserWarning})
     return {"digests": digests, "global_changed_at": changed, "gens": sorted(set(bad)), "detail": snaps, "unseeded_warnings": warned}
 
 
@@ -757,18 +825,23 @@ def _reset_through_collections(form, s):
             m.reset_rng(s)
         out["identity_after_default"] = identity(m, held)
         d2 = draws(m, held, with_rng)
-        out["diff_default"] = first_diff(d1, d2)
+        out["diff_default"] = first_diff(d1, d2) if form not in STD_DRAW_AT_INIT else None
         m.reset_randomizer(m._seed)
         if with_rng:
             m.reset_rng(s)
         out["identity_after_explicit"] = identity(m, held)
         d3 = draws(m, held, with_rng)
-        out["diff_explicit"] = first_diff(d1, d3)
+        out["diff_explicit"] = first_diff(d1, d3) if form not in STD_DRAW_AT_INIT else None
         m2 = World(**_seed_kwargs(form, s))
         d4 = draws(m2, held_of(m2), with_rng)
         out["diff_fresh"] = first_diff(d1, d4)
         out["through"] = _sha(d1)
     return out
+
+
+# seed forms numpy's default_rng refuses: Model.__init__ then draws model.rng's seed FROM model.random (one randint), so the
+# stream a user sees after construction starts one draw later than the stream after reset_randomizer(seed)
+STD_DRAW_AT_INIT = ("seed-float", "seed-str")
 
 
 def run_reset_job(job):
@@ -786,10 +859,11 @@ def run_reset_job(job):
     seed0 = m._seed
     m.reset_randomizer(seed0)
     again = [m.random.random() for _ in range(n)] + [m.random.randrange(1000) for _ in range(n)]
-    out["randomizer_explicit"] = (first == again) if seed0 is not None else None
+    consumed = form in STD_DRAW_AT_INIT
+    out["randomizer_explicit"] = (first == again) if (seed0 is not None and not consumed) else None
     m.reset_randomizer()
     again2 = [m.random.random() for _ in range(n)] + [m.random.randrange(1000) for _ in range(n)]
-    out["randomizer_default"] = (first == again2)
+    out["randomizer_default"] = (first == again2) if not consumed else None
     out["seed0_is_none"] = seed0 is None
     if form in ("seed", "rng-int", "rng-list"):
         arg = s if form != "rng-list" else [s, s + 1]
@@ -1263,6 +1337,9 @@ def run_world_case(case):
             super().__init__(model)
             self.key = key
 
+        def __bool__(self):      # agents with an odd key are "false" objects (case["falsy"]): Mesa must never test `if agent:`
+            return not (case.get("falsy") and self.key % 2 == 1)
+
     class WA1(WA0):
         pass
 
@@ -1301,7 +1378,7 @@ def run_world_case(case):
         else:
             gcls = OrthogonalMooreGrid if ck == "moore" else OrthogonalVonNeumannGrid
             space = gcls((case["cw"], case["ch"]), torus=case["ctorus"], random=srnd)
-        if not case["space_seeded"] and not any("Random number generator not specified" in str(w.message) for w in wl):
+        if not case["space_seeded"] and not _unseeded_warned(wl):
             fail("C01/DiscreteSpace/silently-unseeded", -1, "a Grid built with random=None issued no UserWarning")
     space._try_random = False
     cells = list(space._cells.values())
@@ -1346,9 +1423,9 @@ def run_world_case(case):
             elif kind == "cont_legacy":
                 XS.append((kind, LCS(3, 2, False)))
             elif kind in ("cont_exp", "cont_exp_unseeded"):
-                nw = len([w for w in wl if "Random number generator not specified" in str(w.message)])
+                nw = len([w for w in wl if w.category is UserWarning])
                 XS.append((kind, XCS([[0, 3], [0, 2]], torus=False, random=rnd if kind == "cont_exp" else None, n_agents=3)))
-                if kind == "cont_exp_unseeded" and len([w for w in wl if "Random number generator not specified" in str(w.message)]) == nw:
+                if kind == "cont_exp_unseeded" and len([w for w in wl if w.category is UserWarning]) == nw:
                     fail("C01/ContinuousSpace/silently-unseeded", -1, "an experimental ContinuousSpace built with random=None issued no UserWarning")
     xwhere = {}     # agent id -> index of the further space it is in
 
@@ -1363,7 +1440,7 @@ def run_world_case(case):
         with warnings.catch_warnings(record=True) as wl:
             warnings.simplefilter("always")
             r = XS[si][1].agents
-        warned = any("Random number generator not specified" in str(w.message) for w in wl)
+        warned = _unseeded_warned(wl)
         return r, warned
 
     def in_lg(a):
@@ -1395,7 +1472,7 @@ def run_world_case(case):
             with warnings.catch_warnings(record=True) as wl:
                 warnings.simplefilter("always")
                 r = lg.agents
-            if not ne and not any("Random number generator not specified" in str(w.message) for w in wl):
+            if not ne and not _unseeded_warned(wl):
                 fail("C01/_Grid.agents/silently-unseeded", i, "the .agents of an empty legacy grid got an unseeded generator without a UserWarning")
             return r, "TLegacyAgents", ne
         if k == "xagents":
@@ -1453,7 +1530,7 @@ def run_world_case(case):
             with warnings.catch_warnings(record=True) as wl:
                 warnings.simplefilter("always")
                 r = AgentSet(list(c), random=rnd if t[2] else None)
-            if not t[2] and not any("Random number generator not specified" in str(w.message) for w in wl):
+            if not t[2] and not _unseeded_warned(wl):
                 fail("C01/AgentSet/silently-unseeded", i, "AgentSet(agents, random=None) issued no UserWarning")
             return r, f"(TNew {m} {L.b(t[2])})", bool(t[2])
         raise ValueError(k)
@@ -1467,7 +1544,14 @@ def run_world_case(case):
         if k == "cnbhd":
             if not 0 <= t[1] < len(cells):
                 raise _NoSuch(f"(CNbhd {L.z(t[1])} {L.b(t[2])})")
-            return cells[t[1]].get_neighborhood(1, include_center=t[2]), f"(CNbhd {t[1]} {L.b(t[2])})", case["space_seeded"]
+            # the same neighbourhood through different spellings of the cached call (positional / keyword / cached property)
+            if i % 3 == 0:
+                nb = cells[t[1]].get_neighborhood(radius=1, include_center=t[2])
+            elif i % 3 == 1 and not t[2]:
+                nb = cells[t[1]].neighborhood
+            else:
+                nb = cells[t[1]].get_neighborhood(1, include_center=t[2])
+            return nb, f"(CNbhd {t[1]} {L.b(t[2])})", case["space_seeded"]
         try:
             c, m, sd = cev(t[1], i)
         except _NoSuch as e:
@@ -1488,7 +1572,7 @@ def run_world_case(case):
             with warnings.catch_warnings(record=True) as wl:
                 warnings.simplefilter("always")
                 r = CellCollection(list(c), random=rnd if t[2] else None)
-            if not t[2] and not any("Random number generator not specified" in str(w.message) for w in wl):
+            if not t[2] and not _unseeded_warned(wl):
                 fail("C01/CellCollection/silently-unseeded", i, "CellCollection(cells, random=None) issued no UserWarning")
             return r, f"(CNew {m} {L.b(t[2])})", bool(t[2])
         raise ValueError(k)
@@ -1591,7 +1675,7 @@ def run_world_case(case):
                     try:
                         lg.move_to_empty(a)
                     except Exception as e:  # noqa: BLE001
-                        if "No empty cells" in str(e) and not empties_before:
+                        if type(e) is Exception and not empties_before:      # by type and position: raised with no empty cell left
                             obs.append([-1, 1])
                             ops_m.append(f"MoveToEmpty {op[1]} [] 0 []")
                             continue
@@ -1946,7 +2030,7 @@ def _gen_term(rng, depth, nkeys=4):
     k = rng.choice(["select", "select", "selectall", "shuffle", "shuffle", "sort", "group", "copy", "new"])
     inner = _gen_term(rng, depth - 1)
     if k == "select":
-        return [k, inner, rng.randrange(-1, nkeys + 1), rng.choice([None, None, 0, 1, 2, 3, 5])]
+        return [k, inner, rng.randrange(-1, nkeys + 1), rng.choice([None, None, 0, 1, 2, 3, 5, -1, 100])]
     if k == "sort":
         return [k, inner, rng.random() < 0.5]
     if k == "group":
@@ -1983,7 +2067,7 @@ def _gen_world(rng, big=False):
               if j < len(cells)] if rng.random() < 0.85 else []
     case = {"kind": "world", "seed": rng.randrange(10**6), "agents": agents, "space_seeded": rng.random() < 0.8, "cw": cw, "ch": ch,
             "ctorus": rng.random() < 0.5, "moore": rng.random() < 0.5, "cell_of": cell_of, "lw": lw, "lh": lh, "lplace": lplace,
-            "salt": rng.randrange(1000), "ops": [], "ckind": rng.choice([None, None, None, "hex", "network", "voronoi"]),
+            "salt": rng.randrange(1000), "ops": [], "falsy": rng.random() < 0.4, "ckind": rng.choice([None, None, None, "hex", "network", "voronoi"]),
             "xspaces": [rng.choice(["multi", "hexsingle", "hexmulti", "network", "cont_legacy", "cont_exp", "cont_exp", "cont_exp_unseeded"])
                         for _ in range(rng.randint(0, 3))]}
     nid = n
@@ -2051,7 +2135,7 @@ def _gen_world(rng, big=False):
 
 def _script_spec(rng):
     OPS = ["step", "shuffle_do", "shuffle_inplace", "shuffle_copy_do", "select_frac", "select_filter", "by_type", "groupby", "sort_do",
-           "populate", "remove", "space_agents", "rand_cell", "rand_agent", "rand_empty", "np_draw"]
+           "populate", "remove", "space_agents", "rand_cell", "rand_agent", "rand_empty", "np_draw", "abandon_iter", "bad_move"]
     kind = rng.choice(["moore", "vonneumann", "hex", "network", "network", "netgrid", "netgrid", "single", "multi", "cont", "none"])
     w, h = rng.randint(2, 5), rng.randint(2, 5)
     cap = rng.choice([None, None, 1, 2]) if kind in ("moore", "vonneumann", "hex", "network") else None
@@ -2060,7 +2144,8 @@ def _script_spec(rng):
     for _ in range(rng.randint(3, 8)):
         k = rng.choice(OPS)
         ops.append([k, rng.randint(1, 3)] if k == "populate" else ([k, rng.random() < 0.5] if k == "rand_empty" else [k]))
-    return {"form": rng.choice(["seed", "rng-int", "rng-seq", "rng-gen", "rng-list"]), "seed": rng.randrange(1000), "space": kind,
+    return {"form": rng.choice(["seed", "rng-int", "rng-seq", "rng-gen", "rng-list", "seed", "rng-int", "seed-float", "seed-str", "seed-big",
+                                "seed-bool", "rng-npint", "rng-big", "rng-array"]), "seed": rng.randrange(1000), "space": kind,
             "w": w, "h": h, "torus": rng.random() < 0.5, "capacity": cap, "n": n, "ops": ops}
 
 
@@ -2105,7 +2190,8 @@ def gen_cases(rng, tier):
     # re-seeding
     cases.append({"kind": "env", "hashseeds": [0, 1], "priors": False,
                   "jobs": [{"kind": "reset", "form": f, "seed": rng.randrange(10**6), "n": 8}
-                          for f in ("seed", "rng-int", "rng-seq", "rng-gen", "rng-list")]
+                          for f in ("seed", "rng-int", "rng-seq", "rng-gen", "rng-list", "seed-float", "seed-str", "seed-big",
+                                    "seed-bool", "rng-npint", "rng-big", "rng-array")]
                          + [{"kind": "batch_graph", "grid": g, "seeds": [rng.randrange(1000), rng.randrange(1000)], "iterations": 2, "steps": 4}
                             for g in ("NetworkGrid", "Network")]})
     # batch_run in spawn workers
@@ -2178,6 +2264,14 @@ def enumerate_cases(tier, broken=False):
                                                    ["shuffle_do", ["agents"]], ["shuffle_do", ["space_agents"]], ["rcell", ["cnew", ["call"], False]],
                                                    ["reset", False], ["derive", ["shuffle", ["agents"]]], ["derive", ["bytype", 1]], ["derivec", ["cempties"]],
                                                    ["shuffle_do", ["space_agents"]], ["rcell", ["cnbhd", 0, True]], ["reset", True], ["sre"], ["tre"]]}
+    # an agent whose truth value is False as the only occupant of each kind of legacy space
+    yield {"kind": "world", "seed": 3, "agents": [[0, 1], [1, 3], [0, 2]], "space_seeded": True, "cw": 1, "ch": 2, "ctorus": False, "moore": True,
+           "cell_of": [[1, 0]], "lw": 2, "lh": 1, "lplace": [[1, 0, 0]], "salt": 1, "falsy": True,
+           "xspaces": ["hexsingle", "multi", "network", "cont_legacy"],
+           "ops": [["derive", ["legacy_agents"]], ["derive", ["shuffle", ["legacy_agents"]]], ["xplace", 0, 2, 1], ["derive", ["xagents", 0]],
+                   ["xremove", 0, 2], ["xplace", 1, 2, 0], ["derive", ["xagents", 1]], ["xremove", 1, 2], ["xplace", 2, 2, 3],
+                   ["derive", ["xagents", 2]], ["xremove", 2, 2], ["xplace", 3, 2, 0], ["shuffle_do", ["xagents", 3]], ["derive", ["space_agents"]],
+                   ["ragent", ["call"]], ["derive", ["select", ["agents"], 0, None]], ["mte", 1], ["derive", ["legacy_agents"]]]}
     kinds = ["multi", "hexsingle", "hexmulti", "network", "cont_legacy", "cont_exp", "cont_exp_unseeded"]
     for rep in range(2):
         ops = []
@@ -2209,43 +2303,75 @@ def enumerate_cases(tier, broken=False):
                                    ["oneof", 2, [list(c) for c in cells], False], ["mte", 2], ["mte", 1], ["oneof", 2, [list(c) for c in cells], True]]}
 
 
-RULE = ("world histories = one mesa.Model(seed) with <= 7 agents of two classes, a 1..3 x 1..3 cell space (orthogonal Moore / von Neumann, "
-        "HexGrid, Network or VoronoiGrid) built with or without model.random, a legacy SingleGrid (1..3 x 1..3, every 8th 6..7 x 6..7 so that the rejection branch of move_to_empty "
-        "runs) whose _empties set iterates in a salted random order, and 3-12 operations: derivation terms of depth <= 4 over "
-        "select/shuffle/sort/groupby/copy/AgentSet()/space.agents/grid.agents, cell-collection terms, create_agents, remove, "
-        "place, remove_agent, up to three further spaces (MultiGrid, HexSingle/HexMultiGrid, NetworkGrid, legacy and experimental "
-        "ContinuousSpace, the latter with or without model.random) with place / remove / create and their .agents, "
-        "move_to_empty, move_agent_to_one_of (random / closest), reset_randomizer (with / without seed), shuffle_do, select_random_cell / _agent on "
-        "derived cell collections, select_random_empty_cell (both strategies); env histories = each bundled example and batches of random "
-        "API scripts run in fresh interpreters under several PYTHONHASHSEED values, fresh and after other models ran in the "
-        "process, reset_randomizer/reset_rng replays for five seed forms, batch_run with 1/2(/3) spawn workers; "
-        "non-trivial = a world history with >= 2 operations and a non-error observation, or an env history with a multi-step digest")
+RULE = ("model-tied 'world' histories = one mesa.Model(seed) with <= 7 agents of two classes (a subclass among them; in 40 % of the worlds "
+        "the agents with an odd key are objects whose truth value is False), a cell space (orthogonal Moore / von Neumann, HexGrid, Network "
+        "or VoronoiGrid; 1..3 x 1..3 cells or 3-9 centroids) built with or without model.random, a legacy SingleGrid (1..3 x 1..3, every 8th "
+        "6..7 x 6..7 so that the rejection branch of move_to_empty runs) whose _empties set iterates in a salted random order, up to three "
+        "further spaces (MultiGrid, HexSingle/HexMultiGrid, NetworkGrid, legacy ContinuousSpace, experimental ContinuousSpace with or without "
+        "model.random), and 3-12 operations: derivation terms of depth <= 4 over select (at_most None / -1 / 0..5 / 100) / shuffle / sort / "
+        "groupby / copy / AgentSet() / space.agents of every space; cell-collection terms (the neighbourhood reached through positional, keyword "
+        "and cached-property spellings); create_agents, remove, place / remove_agent / create in every space, move_to_empty, "
+        "move_agent_to_one_of (random / closest), reset_randomizer (with / without seed), shuffle_do, select_random_cell / _agent, "
+        "select_random_empty_cell (both strategies).  'env' histories (implementation against implementation, fresh interpreters under "
+        "PYTHONHASHSEED 0,1,2 - 8 values in thorough): each of the nine bundled examples measured fresh and again after same-class "
+        "instances with hand-written non-default constructor arguments and other models ran in the process; batches of random API scripts "
+        "over 9 space kinds and 12 seed forms (seed = int, float, str, > 2^64, bool; rng = int, > 2^64, numpy int, SeedSequence, Generator, "
+        "list, array) with falsy / sized-empty agents, a sub-subclass, a mixin after the framework base, abandoned iterators, rejected calls "
+        "followed by more steps, nearly full capacity-1 grids relocated under both empty-cell strategies, measured fresh and again after a "
+        "prior model that was given the very same graph / PropertyLayer / list / dict objects plus an allocation churn; re-seeding replays "
+        "through 11 collections derived before the reset for all 12 seed forms; the seed+rng ValueError boundary; batch_run with 1/2(/3) "
+        "spawn workers and batch_run(number_processes=1) over one shared graph against pristine graphs.  non-trivial = a world history "
+        "with >= 2 operations and a non-error observation, or an env history with a multi-step digest; distinct = by SHA1 of the history")
 TRUSTED_BASE = [
-    "Coq 8.16.1 kernel (coqc); vm_compute for finite facts and for evaluating the model in the correspondence",
-    "no axioms: Print Assumptions reports 'Closed under the global context' for every C01 theorem",
-    "harness/tables/c01_rng.py (T1): ast extraction of the argument of choice() in _Grid.move_to_empty and the scan of mesa/ for uses of process-global generators (incl. networkx generators called without seed=)",
-    "harness/props/C01.py driver/observer/printer (T2, differential testing, not a proof); RecRandom and PermSet test doubles",
-    "Model/Rng.v is a hand transcription; grid.empties is modelled by its specification (the set of unoccupied coordinates; C08 checks that), connections and cutoff_empties are read from the running objects",
-    "CPython: dict order, int/tuple hashing independent of PYTHONHASHSEED, random.Random / numpy Generator determinism (never modelled: outcomes are inputs)",
-    "'whatever process' is explored (fresh interpreters, spawn workers), not proved",
+    "Coq 8.16.1 kernel (coqc); vm_compute for finite facts about regenerated tables and for evaluating the model in the correspondence",
+    "no axioms: Print Assumptions reports 'Closed under the global context' for all 39 C01 theorems (8 Examples show non-vacuity)",
+    "T1 extractors harness/tables/c01_rng.py (argument of choice() in _Grid.move_to_empty; scan for uses of process-global generators incl. "
+    "networkx generators called without seed=; scan for iteration over sets / dict-view differences without sorted()) and "
+    "harness/tables/rng_code.py (scan of every constructor call of a generator-carrying class with the kind of `random=` handed over; "
+    "Model.__init__ / reset_randomizer / reset_rng translated statement by statement by a pyexpr.Tr subclass, modulo local names, "
+    "docstrings and message texts; ordered glue skeleton of Model.__init__; Agent.random / Agent.rng property bodies)",
+    "harness/props/C01.py driver / observer / Gallina printer (T2 is differential testing, not a proof); test doubles RecRandom (records the "
+    "index a choice / randrange drew) and PermSet (a set iterating in a salted order)",
+    "Model/Rng.v and Model/Seed.v are hand transcriptions tied by the bridge lemmas of Proofs/RngBridge.v to the regenerated code; "
+    "grid.empties is modelled by its specification (C08 checks it); cell connections and cutoff_empties are read from the running objects",
+    "CPython: dict order, int / tuple / str-seed hashing independent of PYTHONHASHSEED, determinism of random.Random and numpy Generators "
+    "(never modelled: outcomes are inputs of the model)",
+    "'whatever process, hash seed, earlier history' is explored in fresh interpreters and spawn workers, not proved",
 ]
 ASSUMPTIONS = [
-    "reset_rng() without argument re-seeds from entropy by design and is not checked; explicit re-seeding is checked for seed=int and rng=int",
-    "a model built with rng=SeedSequence|Generator|list consumes one draw of model.rng to seed model.random; replay of model.rng is therefore only demanded for the int forms",
-    "legacy MultiGrid / hex / network grids, Voronoi and continuous spaces are covered by the implementation-side exploration only",
-    "at_most is an int or absent in the model-tied derivations (float fractions are exercised by the API scripts)",
+    "reset_rng() without argument re-seeds from entropy by design (tests pin it) and is not checked; explicit reset_rng(seed) replay is "
+    "demanded for seed=int and rng=int only: a model built from SeedSequence / Generator / list / array / numpy int spends one draw of "
+    "model.rng on seeding model.random, and one built from a float or str seed spends one draw of model.random on seeding model.rng, so "
+    "for those forms 'a fresh model with the same seed draws the same' and generator identities are demanded instead of replay after reset",
+    "positions inside continuous spaces and Voronoi geometry are not in the Gallina model (cells and connections are data read from the "
+    "running space); float at_most fractions are exercised by the API scripts only; digests compare floats bit-exactly via repr",
+    "class-level data of example models is reported as a diagnosis hint only; a verdict needs a differing trajectory / collected data",
+    "defects found and repaired by this property: VirusOnNetwork graph without seed=, ConwaysGameOfLife grid without random=, "
+    "Model(rng=int)._seed not recorded (fixes/C01-1..3, committed in /repo); _Grid.agents dropping agents whose truth value is False "
+    "(fixes/C01-4, found in round 5)",
 ]
-LEVEL_TEXT = ("Machine-checked Coq theorems over a Gallina model of Mesa's collection derivations and of legacy move_to_empty: every "
-              "AgentSet / CellCollection derived by any nesting of the stochastic API from a model whose space was built with "
-              "model.random carries model.random, along every history (induction on terms and on operation lists); move_to_empty is "
-              "invariant under every iteration order of the hash-ordered set of empties (through the sorted() re-read from the source "
-              "on every run) and lands on an empty cell in both branches; a shuffle is a permutation determined by member order and "
-              "generator outcome; the registry stays in creation order. The model is tied to the code by differential evaluation on "
-              "random and enumerated histories with permuted set iteration orders, and the statement's process/hash-seed/history part "
-              "is explored implementation-against-implementation in fresh interpreters and spawn workers.")
-LEVEL_NOTE = ("partial: reproducibility across processes and hash seeds is runtime behaviour that no executable model exhibits; it is "
-              "explored (digests over hash seeds, prior histories, spawn workers), not proved. Theorems are about the model.")
-TECHNIQUE = "Coq proof (induction on derivation terms / operation lists, permutation lemmas) + source-regenerated tables + vm_compute correspondence + multi-process differential exploration"
+LEVEL_TEXT = ("39 machine-checked Coq theorems (closed under the global context) over two Gallina models. Model/Rng.v: which generator every "
+              "AgentSet / CellCollection carries and what the random choices are functions of - any nesting of select / shuffle / sort / "
+              "groupby / copy from model.agents, agents_by_type, the agents of a cell space, of a legacy SingleGrid and of MultiGrid / hex / "
+              "network / continuous spaces carries model.random unless it goes through one of the documented unseeded fall-backs (exact "
+              "characterisation gen_spec; the first-agent fall-back of legacy spaces as an explicit function), along every operation "
+              "history incl. reset_randomizer (induction on terms and op lists); legacy move_to_empty and whole histories are invariant "
+              "under every iteration order of the hash-ordered set of empties and land on an empty cell in both branches; both "
+              "select_random_empty_cell strategies, select_random_cell/agent and move_agent_to_one_of (closest: never a nearer offer) are "
+              "sound for every generator outcome; a shuffle is a permutation determined by member order and outcome; the registry stays in "
+              "creation order. Model/Seed.v: Model.__init__ / reset_randomizer / reset_rng. Code-level T1 regenerates from the working tree "
+              "the kind of generator handed to every constructor call in the package (C01_all_sites_propagate, C01_sites_match_model, "
+              "headline theorem restated as C01_gen_of_source), the seed handling (bridge lemmas; C01_reset_replays_of_source: the recorded "
+              "_seed is what model.random started from and reset re-seeds in place), the sorted() in move_to_empty, the absence of "
+              "global-generator use and of unordered set iteration. The model is tied to the code by differential evaluation on random and "
+              "enumerated histories (0 disagreements on 6000+ histories per thorough run).")
+LEVEL_NOTE = ("partial by nature: 'whatever process, hash seed and earlier history' is runtime behaviour no executable model exhibits; it is "
+              "explored implementation-against-implementation (per-step digests incl. DataFrames and property layers of all nine examples "
+              "and of random API scripts in fresh interpreters, after prior histories, in spawn workers), not proved. Theorems are about "
+              "the models; oracle-only: trajectories, global generator state, batch_run, NumPy draws, continuous / Voronoi geometry.")
+TECHNIQUE = ("Coq proof (induction on derivation terms and operation lists, permutation / sorting lemmas, refinement to a specification) + "
+             "code-level T1 (AST scans and a pyexpr translation of the seed handling with bridge lemmas) + vm_compute correspondence with "
+             "recorded random outcomes + multi-process differential exploration")
 DESIGN_REF = "DESIGN.md section 4, C01"
 
 
